@@ -370,3 +370,19 @@ func (b *Bed) AwaitPubs(n int, d time.Duration) bool {
 	}
 	return true
 }
+
+// Environmental reports whether a start-up error speaks of time or transport (a window that
+// closed on a loaded machine, a connection that was not there yet) rather than of the store the
+// server starts on. Such a failure is no verdict about the tree: the caller ends inconclusive.
+func Environmental(err error) bool {
+	if err == nil {
+		return false
+	}
+	s := strings.ToLower(err.Error())
+	for _, m := range []string{"server selection", "timeout", "timed out", "deadline exceeded", "connection refused", "connection reset", "broken pipe", "did not become ready", "address already in use", "eof"} {
+		if strings.Contains(s, m) {
+			return true
+		}
+	}
+	return false
+}
